@@ -45,7 +45,11 @@ def classify(c):
     for i, (w, g) in enumerate(zip(want, got)):
         if w != "-" and w != g and not (w.endswith("*") and g.startswith(w[:-1])):
             # a name defined by the unexecuted tail of an earlier line that failed at run time
-            earlier_tail = any(TAIL_DEF in l for l in lines[:i])
+            # (its signature: an earlier line that stopped with a runtime error also defines — `let` / `fn` — a name this line uses)
+            import re
+            earlier_tail = any(TAIL_DEF in l for l in lines[:i]) or any(
+                got[j].startswith("rt") and any(re.search(r"\b" + re.escape(nm) + r"\b", lines[i]) for nm in re.findall(r"\b(?:let|fn)\s+([A-Za-z_][A-Za-z0-9_]*)", lines[j]))
+                for j in range(min(i, len(got))))
             # (the uninitialised slot shows as a runtime error when it is operated on, as `null` when it is only printed)
             if earlier_tail and w.startswith("ok") and (g.startswith("rt") or "6e756c6c" in g):
                 return "repl-unexecuted-tail-definition"
